@@ -55,6 +55,7 @@ struct Family {
     inputs: Vec<RV>,
 }
 
+
 fn nested_call(depth: usize) -> String {
     let mut s = "c(id)".to_string();
     for _ in 0..depth {
@@ -63,13 +64,22 @@ fn nested_call(depth: usize) -> String {
     s
 }
 
+static DEEP_RULE: std::sync::LazyLock<String> = std::sync::LazyLock::new(|| nested_call(150));
+
 fn families() -> Vec<Family> {
     let in1 = RV::map(&[("id", RV::Int(1)), ("other", RV::Int(2))]);
     let in2 = RV::map(&[("id", RV::Int(2)), ("other", RV::Int(1))]);
     vec![
         Family { name: "cache-mix", rules: vec!["c(id)", "n(id)", "c(id)", "c(other)", "i1 / i0"], inputs: vec![in1.clone(), in2.clone()] },
         Family { name: "lists", rules: vec!["[c(id), c(i7)]", "c(id) == c(other)", "bad(id)", "if is_some(n(id)) then c(other) else c(id)"], inputs: vec![in1.clone(), in2.clone()] },
-        Family { name: "two-cacheable", rules: vec!["c(id)", "c(other)"], inputs: vec![in1, in2] },
+        Family { name: "two-cacheable", rules: vec!["c(id)", "c(other)"], inputs: vec![in1.clone(), in2.clone()] },
+        // no user function at all: the input is reached through plain fields, through the `facts`
+        // alias only, through a symbol-free constant (evaluated on alternating inputs in the
+        // repetition leg)
+        Family { name: "no-functions", rules: vec!["facts.id", "facts.other == i2", "id + other", "facts", "i1 + i1", "if facts.id > i1 then facts.other else id"], inputs: vec![in1.clone(), in2.clone(), RV::Int(21), RV::Int(16)] },
+        // both interleaved evaluations are suspended 150 levels deep (per-thread bookkeeping of
+        // nesting adds up across suspended evaluations)
+        Family { name: "deep-interleave", rules: vec![DEEP_RULE.as_str(), "c(other)"], inputs: vec![in1, in2] },
     ]
 }
 
@@ -283,9 +293,13 @@ fn sequential_legs(fam: &Family, rules: &[String], baselines: &[(Outs, Vec<(Stri
         Err(m) => return acc.machinery(m),
     };
     // (a) repetition: same input three times, outcomes equal, input unchanged
-    for (ii, input) in fam.inputs.iter().enumerate() {
+    let n_in = fam.inputs.len();
+    for step in 0..(3 * n_in) {
+        // inputs alternate, so a value remembered from the previous (different) input shows
+        let (ii, round) = (step % n_in, step / n_in);
+        let input = &fam.inputs[ii];
         let facts = input.to_value();
-        for round in 0..3 {
+        {
             acc.count("executions", 1);
             let r = catch(|| crate::engine::exec::block_on(rs.evaluate_value(&facts)));
             let got = match r {
